@@ -3,4 +3,5 @@ CONSTANTS
   FixFinal = TRUE
   FixSpillMin = TRUE
   FixLeftId = TRUE
+  FixEmptyMerge = TRUE
 CHECK_DEADLOCK FALSE
